@@ -170,10 +170,10 @@ Proof.
       rewrite IH by exact H'. destruct (sample_entries w (map (enc_int w) tail)); reflexivity.
 Qed.
 
-Lemma sample_raws_length : forall w m s, (sample_len s <= m)%nat -> (1 <= m)%nat ->
+Lemma sample_raws_length : forall w m s, (sample_len s <= m)%nat ->
   length (sample_raws w m s) = m.
 Proof.
-  intros w m s Hl Hm. destruct s as [vs|]; cbn [sample_raws sample_len] in *.
+  intros w m s Hl. destruct s as [vs|]; cbn [sample_raws sample_len] in *.
   - rewrite app_length, map_length, repeat_length. lia.
   - cbn [length]. rewrite repeat_length. lia.
 Qed.
@@ -198,32 +198,26 @@ Qed.
 
 Definition norm (s : sample) : sample := match s with Some vs => norm_sample vs | None => None end.
 
-(* the whole series, for ANY width that fits every value and ANY common length m >= 1 that is
-   at least every sample's length: samples of unequal length come back with their own lengths *)
+(* the whole series, for ANY width that fits every value and ANY common length m that is at
+   least every sample's length (a missing sample has length 1): samples of unequal length come
+   back with their own lengths *)
 Lemma series_roundtrip : forall w m vals rest,
   (forall s, In s vals -> sample_fits w s) ->
-  (forall s, In s vals -> (sample_len s <= m)%nat) -> (1 <= m)%nat ->
+  (forall s, In s vals -> (sample_len s <= m)%nat) ->
   dec_samples w (length vals) m
     (flat_map (fun s => flat_map (enc_int w) (sample_raws w m s)) vals ++ rest)
   = ROk (map norm vals).
 Proof.
-  induction vals as [|s vals IH]; intros rest Hf Hl Hm; [reflexivity|].
+  induction vals as [|s vals IH]; intros rest Hf Hl; [reflexivity|].
   cbn [length dec_samples flat_map map]. rewrite <- app_assoc.
-  pose proof (sample_raws_length w m s (Hl s (or_introl eq_refl)) Hm) as Len.
+  pose proof (sample_raws_length w m s (Hl s (or_introl eq_refl))) as Len.
   rewrite <- Len at 1. rewrite chunks_flat_map.
   rewrite sample_roundtrip by (apply Hf; left; reflexivity).
   cbn [rbind]. rewrite IH.
   - cbn [rbind]. destruct s as [vs|]; reflexivity.
   - intros s' Hs'. apply Hf. right. exact Hs'.
   - intros s' Hs'. apply Hl. right. exact Hs'.
-  - exact Hm.
 Qed.
-
-(* the all-missing series: the writer emits a zero-length descriptor followed by one byte per
-   sample, which the reader rejects (known finding fmt-int-vector-all-samples-missing) *)
-Lemma all_missing_series_refuted :
-  exists vals bs, enc_fmt_ints vals = Ok bs /\ dec_fmt_ints (length vals) bs = RErr.
-Proof. exists [None; None]. eexists. split; [vm_compute; reflexivity|]. vm_compute. reflexivity. Qed.
 
 (* a concrete series through the writer's own width / length selection *)
 Example series_example :
@@ -309,7 +303,7 @@ Proof.
   assert (width_of_code (wcode w) = Some w) as Ew' by (destruct w; reflexivity). rewrite Ew'.
   rewrite Nat2Z.id.
   rewrite <- (app_nil_r (flat_map _ vals)).
-  rewrite series_roundtrip; [reflexivity| | |exact Hm1].
+  rewrite series_roundtrip; [reflexivity| |].
   - intros s Hs vs n E Hn. subst s.
     pose proof (scan_samples_bounds vals scan_init vs n Hs Hn) as B.
     fold (scan_samples vals) in B. lia.
@@ -323,4 +317,67 @@ Proof.
   intros vals vs n Hv Hn Hlt. unfold enc_fmt_ints.
   pose proof (scan_samples_bounds vals scan_init vs n Hv Hn) as B. fold (scan_samples vals) in B.
   rewrite select_minmax_err by lia. reflexivity.
+Qed.
+
+(* ---------------------------------------------------------------- the all-missing series
+   (`GT:AD 0/1:. 0/0:.`): one missing entry per sample, read back as missing samples *)
+Lemma max_len_all_none : forall vals m0, (forall s, In s vals -> s = None) ->
+  fold_left (fun m s => Nat.max m (sample_len s)) vals m0
+  = match vals with [] => m0 | _ => Nat.max m0 1 end.
+Proof.
+  induction vals as [|s vals IH]; intros m0 H; [reflexivity|].
+  cbn [fold_left]. rewrite (H s (or_introl eq_refl)). cbn [sample_len].
+  rewrite IH by (intros s' Hs'; apply H; right; exact Hs').
+  destruct vals; [reflexivity|lia].
+Qed.
+
+Lemma map_norm_all_none : forall vals, (forall s, In s vals -> s = None) -> map norm vals = vals.
+Proof.
+  induction vals as [|s vals IH]; intros H; [reflexivity|].
+  cbn [map]. rewrite IH by (intros s' Hs'; apply H; right; exact Hs').
+  rewrite (H s (or_introl eq_refl)). reflexivity.
+Qed.
+
+Lemma all_missing_series_roundtrip : forall vals, vals <> [] -> (forall s, In s vals -> s = None) ->
+  exists bs, enc_fmt_ints vals = Ok bs /\ dec_fmt_ints (length vals) bs = ROk (BVectors vals).
+Proof.
+  intros vals Hne H.
+  assert (max_len vals = 1%nat) as M
+    by (unfold max_len; rewrite max_len_all_none by exact H; destruct vals; [contradiction|reflexivity]).
+  destruct (fmt_int_vector_roundtrip vals) as [bs [E D]].
+  - intros vs n Hv Hn. specialize (H _ Hv). discriminate H.
+  - lia.
+  - lia.
+  - exists bs. split; [exact E|]. rewrite map_norm_all_none in D by exact H. exact D.
+Qed.
+
+(* ---------------------------------------------------------------- INFO field with a missing
+   value (`DP=.`): written as the typed MISSING value, read back as missing for every type *)
+Lemma info_missing_roundtrip :
+  exists bs, enc_info_missing = Ok bs /\
+    dec_info_int bs = ROk RNone /\ dec_info_ints bs = ROk RNone /\
+    dec_info_float bs = ROk RNone /\ dec_info_floats bs = ROk RNone /\
+    dec_info_string bs = ROk None.
+Proof. eexists. split; [reflexivity|]. vm_compute. repeat split; reflexivity. Qed.
+
+(* ---------------------------------------------------------------- end-of-vector / reserved
+   float patterns are rejected by the vector and per-sample writers (no panic, no bytes) *)
+Definition eov_or_reserved (b : Z) : Prop := 2139095042 <= b <= 2139095047.
+
+Lemma classify_f_eov_or_reserved : forall b, eov_or_reserved b ->
+  classify_f b = FEov \/ exists c, classify_f b = FReserved c.
+Proof.
+  intros b H. unfold eov_or_reserved in H. unfold classify_f, f_missing, f_eov.
+  destruct (b =? 2139095041) eqn:E1; [lia|].
+  destruct (b =? 2139095042) eqn:E2; [left; reflexivity|].
+  destruct ((2139095043 <=? b) && (b <=? 2139095047)) eqn:E3; [right; eexists; reflexivity|lia].
+Qed.
+
+Lemma float_eov_or_reserved_is_error : forall b, eov_or_reserved b ->
+  enc_info_floats [Some b] = ErrInput /\ enc_fmt_float [Some b] = ErrInput /\
+  enc_fmt_floats [Some [Some b]] = ErrInput.
+Proof.
+  intros b H. unfold enc_info_floats, enc_fmt_float, enc_fmt_floats.
+  cbn [map_res info_fentry fentry has_vector existsb orb fsample_raws]. unfold validate_float.
+  destruct (classify_f_eov_or_reserved b H) as [E|[c E]]; rewrite E; cbn; repeat split; reflexivity.
 Qed.
